@@ -14,6 +14,8 @@ BASE = {
  'scopes': 'Put 9001 into @1\nif @1\nPut 2 into @2\nPut @2 into @1\n\nsay @1\nwhile @1 is greater than 9002\nknock @1 down\nsay @1\n\nsay @2\n',
  'arrays': 'rock @1 with 9001, 2\nlet @1 at "k" be 3\nroll @1 into @2\nsay @2\nsay @1 at "k"\nsay @1\nlet @3 be @1\nrock @3 with 5\nsay @3\nsay @1\n',
  'distinct-names': 'Put 1 into @1\nPut 2 into @2\nPut 3 into @3\nsay @1\nsay @2\nsay @3\n',
+ 'suffix-forms': "@1's 9001\nsay @1\nit's 9002\nsay it\nsay @1\n@2 is 1\n@3 is 2\nthey're 3\nsay @3\nsay @2\nif @1 ain't nothing\nsay \"x\"\n\nsay @1's 9001\n",
+ 'aliases': 'let @1 be 9001\nlet @2 be nothing\nshout @1 without @2\nwhisper @1 of 2\nscream @1 between 2\nif @1 is as great as @2\nsay "ge"\nelse\nsay "lt"\n\nuntil @2 is as strong as 2\nbuild @2 up\n\nsay @2\nburn @1 into @3\nsay @3\ngive back @1\n',
 }
 NAMES = {
  'simple-lower': ['alpha', 'beta', 'gamma', 'delta'],
@@ -25,10 +27,17 @@ NAMES = {
  'proper-recased': ['TOMMY ALPHA', 'DOCTOR BETA', 'MISTER GAMMA RAY', 'DELTA FORCE'],
  'mixed-kinds': ['alpha', 'my beta', 'Gamma Ray', 'the delta'],
  'other-names': ['xenon', 'yttrium', 'zinc', 'wolfram'],
+ 'simple-accented': ['élan', 'bäta', 'gamüa', 'жж'],
+ 'simple-accented-upper': ['ÉLAN', 'BÄTA', 'GAMÜA', 'ЖЖ'],
+ 'common-accented': ['my élan', 'your bäta', 'the gamü', 'our жж'],
+ 'common-accented-upper': ['MY ÉLAN', 'YOUR BÄTA', 'THE GAMÜ', 'OUR ЖЖ'],
+ 'proper-accented': ['Herr Müller', 'Élan Vital', 'Frau Ëlse Brühl', 'Doktor Bäcker'],
+ 'proper-accented-upper': ['HERR MÜLLER', 'ÉLAN VITAL', 'FRAU ËLSE BRÜHL', 'DOKTOR BÄCKER'],
+ 'near-names': ['elan', 'élan', 'elän', 'the elan'],
 }
 BOUNDS = {'programs': '%d templates x %d naming schemes (every name kind, re-cased variants, fresh names) + per-mention re-casing + keyword re-casing (upper / capitalised / alternating)' % (len(BASE), len(NAMES)),
           'values': 'number placeholders are any double (loop bound in -1..=3)', 'observables': 'written lines and outcome of the transformed program equal those of the simple-lower original (z3, for all placeholder values)'}
-OUTSIDE = ['programs outside the templates', 'non-ASCII names (symbol-table case folding of non-ASCII letters is exercised by the repository programs in the translator validation only)']
+OUTSIDE = ['programs outside the templates', 'letters whose case mapping is not one-to-one (ß, İ, Kelvin sign): whether STRASSE names the variable straße is not settled by the statement']
 ASSUMPTIONS = C04.ASSUMPTIONS + ['metamorphic relation only: no reference interpreter is involved; both programs are parsed by the real parser']
 RULE = 'state = feasible path end of running the original and the transformed program on the same symbolic placeholders; z3 compares the two output sequences and outcomes'
 SPEC = {'n1': {'lo': -1, 'hi': 3}, 'n2': {'lo': -1, 'hi': 3}}
@@ -97,7 +106,7 @@ def jobs(ctx, tier):
     for b in BASE:
         for v in NAMES:
             if v != 'simple-lower': js.append(Job(f'{b}/names={v}', h_meta, (mir, b, ('names', v)), witness=['meta-done'], fuel=20_000_000, weight=3))
-        for v in ('simple-lower', 'common', 'proper'): js.append(Job(f'{b}/mentions-recased={v}', h_meta, (mir, b, ('mentions', v)), witness=['meta-done'], fuel=20_000_000, weight=3))
+        for v in ('simple-lower', 'common', 'proper', 'simple-accented', 'common-accented', 'proper-accented'): js.append(Job(f'{b}/mentions-recased={v}', h_meta, (mir, b, ('mentions', v)), witness=['meta-done'], fuel=20_000_000, weight=3))
         for k in ('upper', 'capital', 'alternate'): js.append(Job(f'{b}/keywords={k}', h_meta, (mir, b, ('keywords', k)), witness=['meta-done'], fuel=20_000_000, weight=3))
     return js
 
